@@ -14,6 +14,9 @@ sys.path.insert(0, os.path.join(VERIF, 'rules'))
 from facts import Prog  # noqa: E402
 
 
+_ACTIVE_INCLUDES = []
+
+
 class AnchorMissing(Exception):
     pass
 
@@ -66,8 +69,14 @@ class Ctx:
     def include(self, module_run, rules, as_rule):
         """run another property's rule function and import the obligations of the listed rule ids (a rule shared by two
         properties is evaluated once per check run, on the same facts)"""
-        sub = Ctx(self.prog, self.prop, self.tier)
-        module_run(sub)
+        if module_run in _ACTIVE_INCLUDES:
+            raise RuntimeError('cyclic rule inclusion through %s' % getattr(module_run, '__module__', module_run))
+        _ACTIVE_INCLUDES.append(module_run)
+        try:
+            sub = Ctx(self.prog, self.prop, self.tier)
+            module_run(sub)
+        finally:
+            _ACTIVE_INCLUDES.pop()
         for i in sub.instances:
             if i['rule'] in rules:
                 if i['verdict'] == 'holds':
